@@ -224,6 +224,40 @@ def gen_adversarial(rng, tier, add):
                         add("adversarial_binary", "binaryx S:%s S:%s S:%s L:%d S:%s L:%d S:%s" % (ctx, dt, op, n, ",".join(a for a, _ in w), n, ",".join(b for _, b in w)), ctx)
 
 
+def gen_layouts(rng, tier, add):
+    """operand layout x result layout for every SIMD entry: r/c operands (ndarray / column_major ndarray), Row/ColumnMajorResolver;
+    2-d and 3-d shapes whose size is and is not a multiple of the lanes; elements are compared by logical index"""
+    for ctx in ["sse", "avx", "v128", "v256", "v512", "simde", "none"]:
+        for dt in ("f32", "f64"):
+            N = lanes(ctx, dt) if ctx != "none" else 4
+            shapes = [(2, 3), (3, 5), (5, 3), (2, N), (3, N + 1), (N + 1, 2), (2, 2 * N + 1), (2, 3, N), (2, 3, N + 1), (3, 1, 5)]
+            if tier == "quick" and N >= 8: shapes = [(3, 5), (2, N), (3, N + 1), (N + 1, 2), (2, 3, N + 1)]
+            k = 0
+            for shp in shapes:
+                n = prod(shp)
+                for lo in ("r", "c"):
+                    for res in ("R", "C"):
+                        add("layouts", "lay S:%s S:%s S:unary S:sqrt S:%s S:%s I:8 %s" % (ctx, dt, lo, res, A(shp, rng.sample(range(1, 40 * n), n))), ctx)
+                for lo in ("rr", "cc", "cr"):
+                    for res in ("R", "C"):
+                        k += 1
+                        bop = "subtract" if k % 2 else "add"
+                        add("layouts", "lay S:%s S:%s S:binary S:%s S:%s S:%s I:2 %s %s" % (ctx, dt, bop, lo, res, A(shp, rng.sample(range(1, 50 * n), n)), A(shp, rng.sample(range(1, 50 * n), n))), ctx)
+                        if len(shp) == 2 and shp[0] > 1 and shp[1] > 1:       # the broadcast arms
+                            for other in ((1, shp[1]), (shp[0], 1)):
+                                m = prod(other)
+                                add("layouts", "lay S:%s S:%s S:binary S:subtract S:%s S:%s I:2 %s %s" % (ctx, dt, lo, res, A(shp, rng.sample(range(1, 50 * n), n)), A(other, rng.sample(range(1, 99), m))), ctx)
+                for ax in range(len(shp)):
+                    for lo in ("r", "c"):
+                        for res in ("R", "C"):
+                            k += 1
+                            add("layouts", "lay S:%s S:%s S:reduce S:add S:%s S:%s I:1 %s I:%d S:%s" % (ctx, dt, lo, res, A(shp, [rng.randint(-20, 40) for _ in range(n)]), ax, "kT" if k % 2 else "kF"), ctx)
+            for (l, r) in (((2, 2), (N + 1,)), ((3,), (2, N)), ((2, 3), (3, 2))):
+                for lo in ("rr", "cc", "cr"):
+                    for res in ("R", "C"):
+                        add("layouts", "lay S:%s S:%s S:outer S:subtract S:%s S:%s I:1 %s %s" % (ctx, dt, lo, res, A(l, rng.sample(range(1, 99), prod(l))), A(r, rng.sample(range(100, 999), prod(r)))), ctx)
+
+
 def gen_cases(rng, tier):
     out = []
     groups = _groups(tier)
@@ -337,6 +371,7 @@ def gen_cases(rng, tier):
             add("special_values", "unary S:%s S:%s S:floor I:1 %s" % (ctx, dt, A((N + 2,), sp[:N + 2])), ctx)
             add("special_values", "binary S:%s S:%s S:multiply I:1 %s %s" % (ctx, dt, A((N + 2,), sp[:N + 2]), A((N + 2,), sp[1:N + 3])), ctx)
     gen_adversarial(rng, tier, add)
+    gen_layouts(rng, tier, add)
     return out
 
 
@@ -356,7 +391,7 @@ def distribution(streams):
     ops = Counter(); ctx = Counter(); st = Counter()
     for s, line, _ in streams:
         t = line.split(" ")
-        ops[t[0] + (":" + t[3][2:] if not t[0].startswith("ix_") else "")] += 1
+        ops[t[0] + (":" + (t[3][2:] + "/" + t[4][2:] if t[0] == "lay" else t[3][2:]) if not t[0].startswith("ix_") else "")] += 1
         ctx[t[1][2:] if not t[0].startswith("ix_") else "index(N=%s)" % t[1][2:]] += 1
         st[s] += 1
     return {"ops": dict(ops), "contexts": dict(ctx), "streams": dict(st)}
@@ -372,28 +407,15 @@ def _elems(res):
     return m.group(1), [x for x in m.group(2).replace(" ", "").split(",") if x]
 
 
-def _negzero_or_nan_positions(t):
-    """positions of a unary / unaryx case line whose input element (after the cast to the dtype) is -0.0 or NaN"""
-    f32 = t[2] == "S:f32"
-    if t[0] == "unary":
-        data = t[5].split(":")[2].split(",")
-        return {i for i, x in enumerate(data) if x in ("900001", "900004")}
-    out = set()
-    for i, h in enumerate(t[5][2:].split(",")):
-        v = struct.unpack(">d", bytes.fromhex(h))[0]
-        if f32: v = _f32(v)
-        if v != v or (v == 0.0 and math.copysign(1.0, v) < 0): out.add(i)
-    return out
-
-
 def classify(line, impl, spec, model):
     t = line.split(" ")
     op = t[0]
     if t[1] == "S:none": return None
-    # the one open class, kept tight: relu / relu6 only, and every differing element sits on a -0.0 or NaN input
+    # The one open class, decided against the model's EXACT prediction of the lane result (Simd.v LaneMax, h_c12.ml
+    # lane_fns: x86/SIMDe max_sd(a,b) = a > b ? a : b; vector extensions fmax/fmin with the zero tie "a|b"):
+    # relu / relu6 only, every element of impl must be (one of) the predicted bit pattern(s).
     if op in ("unary", "unaryx") and t[3] in ("S:relu", "S:relu6"):
-        a, b = _elems(impl), _elems(spec)
-        if not a or not b or a[0] != b[0] or len(a[1]) != len(b[1]): return None
-        diff = {i for i, (x, y) in enumerate(zip(a[1], b[1])) if x != y}
-        if diff and diff <= _negzero_or_nan_positions(t): return "relu_lane_op_differs_on_negzero_nan"
+        a, m = _elems(impl), _elems(model)
+        if not a or not m or a[0] != m[0] or len(a[1]) != len(m[1]): return None
+        if all(x in y.split("|") for x, y in zip(a[1], m[1])): return "relu_lane_op_differs_on_negzero_nan"
     return None
